@@ -31,7 +31,83 @@ def c11(tier):
                  "coqc is also run by the harness itself to obtain the model's pass-1 text, whose parse tree the real parser then supplies"])
 
 
-CHECKS = {"C06": c06, "C11": c11}
+def c16(tier):
+    vlib.standard(
+        "C16", tier, "c16", ["Properties_C16.v", "Proofs_Cli.v"],
+        assume=[
+            "locations are absolute (begin with '/'): token.Position.String of files loaded by go/packages",
+            "CommentGroup.Text() of go/ast is an input of the model (computed by the harness), not modelled",
+            "os.Getwd failure and Windows path separators are not covered",
+        ],
+        trusted=["verif-tag bridge tests (ops shorten, slash, isgen)", "go/packages loader order is abstracted: e2e lines are compared as sorted lists"])
+
+
+def c15(tier):
+    vlib.standard(
+        "C15", tier, "c15", ["Properties_C15.v", "Proofs_Version.v"],
+        assume=[
+            "recommended APIs are the pkg.Func / $var.Method tokens of a rule's Suggest/Report template outside the quoted match ($$); prose-only recommendations are not recognised",
+            "a method's first version is the minimum over all std types with a method of that name (GOROOT/api)",
+            "the property's range starts at Go 1.13: APIs that old need no gate",
+        ],
+        trusted=["translator vh gen ruletable (rulesdata.PrecompiledRules filters/templates, hand-written GreaterOrEqual gates, GOROOT/api/go1*.txt)",
+                 "ruleguard engine's evaluation of GoVersion filters is tied behaviourally (fires/does not fire per version), not modelled"])
+
+
+def c19(tier):
+    vlib.standard(
+        "C19", tier, "c19", ["Properties_C19.v", "Proofs_Init.v"],
+        assume=[
+            "a configuration is abstracted to the outcome of each fallible step (flag parsing, package loading, version parsing, selection, constructors); which concrete flag values are invalid is decided by the real code and observed by the tie",
+            "what go/packages hands over for broken packages is runtime behaviour: only the oracle (real binaries on broken packages) covers it",
+        ],
+        trusted=["analyzer verif hooks (VerifResetGlobal) and Analyzer.Run driven in-process with a hand-built analysis.Pass"])
+
+
+def c14(tier):
+    vlib.standard(
+        "C14", tier, "c14", ["Properties_C14.v", "Proofs_Params.v"],
+        assume=[
+            "parameter values are compared in their printed form (%v)",
+            "ruleguard's string parameters are validated by its constructor and belong to C18; plumbing cases leave them at their defaults",
+            "gc sizes are modelled for amd64 (word size 8, max align 8)",
+        ],
+        trusted=["bridge op 'params' in both mains; analyzer flag set + VerifPrepare; go/types Sizes and a compiled unsafe.Sizeof program as references for sizes"])
+
+
+def c17(tier):
+    vlib.standard(
+        "C17", tier, "c17", ["Properties_C17.v", "Proofs_IR.v"],
+        assume=[
+            "the fresh IR is produced in-process by the same steps as checkers/rules/precompile.go (parse, type-check with the source importer, irconv.ConvertFile); the repository's own generator is additionally run and its output compared byte for byte",
+            "how the ruleguard IR loader interprets the IR is outside this property",
+        ],
+        trusted=["translator vh gen ir (reflection walk of *ir.File into generic trees; registry documentation fields; docs/overview.md rows; `go-critic doc` output)"])
+
+
+def c18(tier):
+    vlib.standard(
+        "C18", tier, "c18", ["Properties_C18.v", "Proofs_RuleFiles.v"],
+        assume=[
+            "ruleguard's own classification of load errors is observed, not modelled: only the ImportError type test of the checker is; the harness produces each class with a file known to trigger it",
+            "filepath.Glob results are sorted; a malformed glob is logged and skipped",
+            "TrimSpace is modelled for ASCII white space",
+        ],
+        trusted=["rule files materialised on disk by the harness and loaded through linter.NewChecker from a working directory that can resolve the dsl package"])
+
+
+def c08(tier):
+    vlib.standard(
+        "C08", tier, "c08", ["Properties_C08.v", "Proofs_Frontends.v"],
+        assume=[
+            "a checker's diagnostics for a file do not depend on which package variant (p, p [p.test]) the file is analysed in; the differential run measures this",
+            "the go/analysis driver prints each distinct (position, message) once (x/tools internal/checker)",
+            "golangci-lint's own integration is not in this repository",
+        ],
+        trusted=["the four built binaries; go/packages; singlechecker's -json and -flags output formats"])
+
+
+CHECKS = {"C06": c06, "C08": c08, "C14": c14, "C17": c17, "C18": c18, "C15": c15, "C16": c16, "C19": c19, "C11": c11}
 
 
 def run(prop, tier):
